@@ -317,7 +317,7 @@ def rparamtype(p):
     return tname(t) + " Referenz"
 
 
-def render(P):
+def render(P, extern_funcs=()):
     """P: program dict (structs, funcs, main, nearly). Returns DDP source text."""
     lines = ['Binde "Duden/Ausgabe" ein.', ""]
     for sd in P["structs"]:
@@ -334,7 +334,7 @@ def render(P):
     for fd in P["funcs"]:
         ps = fd["params"]
         if not ps:
-            head = "Die Funktion %s gibt %s zurück, macht:" % (fd["n"], rtype_ret(fd["ret"]))
+            head = "Die Funktion %s gibt %s zurück, %smacht:" % (fd["n"], rtype_ret(fd["ret"]), "ist extern sichtbar, " if fd["n"] in extern_funcs else "")
         elif len(ps) == 1:
             head = "Die Funktion %s mit dem Parameter %s vom Typ %s, gibt %s zurück, macht:" % (fd["n"], ps[0]["n"], rparamtype(ps[0]), rtype_ret(fd["ret"]))
         else:
@@ -361,7 +361,7 @@ class Runner:
         self.n = 0
         self.env = dict(os.environ, DDPPATH=self.sut)
 
-    def build(self, d, main, opt=1, asan=False, ledger=True, extra_objs=(), kddp_flags=()):
+    def build(self, d, main, opt=1, asan=False, ledger=True, extra_objs=(), kddp_flags=(), forkmain=False):
         """returns (ok, stage, stderr-tail, exe path)"""
         obj = os.path.join(d, "x%d.o" % opt)
         p = subprocess.run([os.path.join(self.sut, "bin", "kddp"), "kompiliere", main, "-o", obj, "-O", str(opt)] + list(kddp_flags), cwd=d, env=self.env,
@@ -371,8 +371,9 @@ class Runner:
         exe = os.path.join(d, "x%d%s" % (opt, "a" if asan else ""))
         lib = os.path.join(self.sut, "asan/lib" if asan else "lib")
         cmd = (["clang-14", "-fsanitize=address"] if asan else ["gcc"]) + [obj] + list(extra_objs) + \
-              [os.path.join(self.sut, "shim", "setlocale_wrap.o"), os.path.join(self.sut, "shim", "ledger_wrap.o"),
-               "-L" + lib, "-lddpstdlib", "-lddpruntime", "-lm", os.path.join(lib, "main.o"),
+              [os.path.join(self.sut, "shim", "setlocale_wrap.o"), os.path.join(self.sut, "shim", "ledger_wrap.o")] + [
+               "-L" + lib, "-lddpstdlib", "-lddpruntime", "-lm",
+               (os.path.join(self.sut, "shim", "forkmain_asan.o" if asan else "forkmain.o") if forkmain else os.path.join(lib, "main.o")),
                "-Wl,--wrap=setlocale", "-Wl,--wrap=ddp_reallocate", "-o", exe]
         p = subprocess.run(cmd, cwd=d, stdout=subprocess.PIPE, stderr=subprocess.STDOUT, text=True, errors="replace", timeout=120)
         if p.returncode != 0:
@@ -431,6 +432,47 @@ class Runner:
             return res
         with ThreadPoolExecutor(max_workers=self.jobs) as ex:
             return list(ex.map(one, range(len(sources))))
+
+
+def run_forked(runner, src, ncases, opts=(1,), asan=False):
+    """src: DDP source holding extern sichtbar functions fall_0..fall_{n-1}; returns {opt: [result per case]} / fail"""
+    d = runner.newdir()
+    with open(os.path.join(d, "m.ddp"), "w") as f:
+        f.write(src)
+    with open(os.path.join(d, "cases.c"), "w") as f:
+        f.write("".join("extern void fall_%d(void);\n" % k for k in range(ncases)))
+        f.write("void (*VERIF_CASES[])(void) = {%s};\nint VERIF_NCASES = %d;\n" % (", ".join("fall_%d" % k for k in range(ncases)), ncases))
+    p = subprocess.run(["gcc", "-c", "cases.c", "-o", "cases.o"], cwd=d, stdout=subprocess.PIPE, stderr=subprocess.STDOUT, text=True)
+    res = dict(dir=d, runs={}, fail={})
+    for o in opts:
+        ok, stage, msg, exe = runner.build(d, "m.ddp", opt=o, asan=asan, extra_objs=[os.path.join(d, "cases.o")], forkmain=True)
+        if not ok:
+            res["fail"][o] = (stage, msg)
+            continue
+        env = dict(os.environ)
+        if asan:
+            env["ASAN_OPTIONS"] = "detect_leaks=1:abort_on_error=0:exitcode=99"
+        try:
+            pr_ = subprocess.run([exe], stdin=subprocess.DEVNULL, stdout=subprocess.PIPE, stderr=subprocess.PIPE, env=env, timeout=20 + 11 * ncases)
+        except subprocess.TimeoutExpired:
+            res["fail"][o] = ("run", "timeout of the forking driver")
+            continue
+        data, out, pos = pr_.stdout, [], 0
+        while pos < len(data):
+            nl = data.index(b"\n", pos)
+            hdr = data[pos:nl].decode().split()
+            if hdr[0] != "@@case":
+                break
+            code, no, ne = int(hdr[2]), int(hdr[3]), int(hdr[4])
+            o_ = data[nl + 1:nl + 1 + no]
+            e_ = data[nl + 1 + no:nl + 1 + no + ne]
+            pos = nl + 1 + no + ne
+            out.append(dict(code=code, out=o_, err=e_.decode("utf-8", "replace"), timeout=(code == -14), ledger=None))
+        if len(out) != ncases:
+            res["fail"][o] = ("run", "forking driver answered %d of %d cases: %s" % (len(out), ncases, pr_.stderr[-300:]))
+            continue
+        res["runs"][o] = out
+    return res
 
 
 def obs_event(r, cfg):
